@@ -17,20 +17,32 @@ for pid in ALL:
     if pid in PC.NOT_APPLICABLE or not hs_q:
         na.append({"property_id": pid, "reason": PC.NOT_APPLICABLE.get(pid, "no harness built for this property yet (see DESIGN.md)")})
         continue
+    has_smt_q = any(h.crate == "smt" for h in hs_q)
+    has_smt_t = any(h.crate == "smt" for h in hs_t)
+    KANI_T = ("bounded model checking of the real Rust code: Kani 0.68 harnesses over kani::any() inputs, CBMC 6.11 + CaDiCaL verdict, "
+              "unwinding assertions on, native concrete-playback replay")
+    SMT_T = ("; the number pipeline of sonic-number by symbolic execution of the compiler's MIR (rustc -Zunpretty=mir of the current tree) into "
+             "linear integer arithmetic decided by z3 5.1.0 / cvc5 1.0.3 - per decimal exponent / literal shape / (need, position), every "
+             "other input symbolic - with native replay of every counterexample (smt/)")
+    smt_note = ""
+    if has_smt_q:
+        smt_note = " Harnesses with crate 'smt' are SMT queries (linear integer arithmetic from the MIR), not CBMC queries."
+    elif has_smt_t:
+        smt_note = " The thorough tier adds SMT queries (linear integer arithmetic from the MIR) for the number pipeline."
     checks.append({
         "property_id": pid,
         "quick_cmd": "python3 /verif/run_check.py %s --tier quick" % pid,
         "thorough_cmd": "python3 /verif/run_check.py %s --tier thorough" % pid,
         "evidence_file": "/verif/evidence/%s.json" % pid,
         "replay_cmd_template": "python3 /verif/run_check.py --replay {path}",
-        "engine": "kani-cbmc",
+        "engine": "kani-cbmc+mir-smt" if (has_smt_q or has_smt_t) else "kani-cbmc",
         "level_claimed": {
             "category": "model_checking",
-            "text": PC.LEVEL_TEXT.get(pid, PC.DEFAULT_LEVEL_TEXT) + " (%d queries quick / %d thorough)" % (len(hs_q), len(hs_t)),
+            "text": PC.LEVEL_TEXT.get(pid, PC.DEFAULT_LEVEL_TEXT) + " (%d harnesses quick / %d thorough)" % (len(hs_q), len(hs_t)) + smt_note,
             "design_ref": "DESIGN.md section 5, " + pid,
         },
         "level_note": PC.LEVEL_NOTE.get(pid, PC.DEFAULT_LEVEL_NOTE),
-        "technique": "bounded model checking of the real Rust code: Kani 0.68 harnesses over kani::any() inputs, CBMC 6.11 + CaDiCaL verdict, unwinding assertions on, native concrete-playback replay",
+        "technique": KANI_T + (SMT_T if (has_smt_q or has_smt_t) else ""),
     })
 
 manifest = {
@@ -46,6 +58,8 @@ manifest = {
     "engines": [
         {"name": "kani-cbmc", "path": "/verif/run_check.py", "serves_properties": [c["property_id"] for c in checks],
          "kind_free_text": "Kani 0.68 / CBMC 6.11 bounded model checker driven by run_check.py: regenerates the encoding from /repo on every run, one solver query per harness, parallel on 16 cores"},
+        {"name": "kani-cbmc+mir-smt", "path": "/verif/run_check.py", "serves_properties": [c["property_id"] for c in checks if c["engine"] == "kani-cbmc+mir-smt"],
+         "kind_free_text": "the same driver; plan entries with crate 'smt' run /verif/smt/{float_check,number_check,simd_check}.py: a symbolic executor over the MIR that the nightly compiler prints for /repo's current sonic-number (smt/mir2smt.py) emits QF_LIA queries for z3 5.1.0 and cvc5 1.0.3, one solver process per query; counterexamples are replayed natively (smt/replay, smt/replay_simd)"},
     ],
     "checks": checks,
     "not_applicable": na,
